@@ -667,6 +667,13 @@ func negRunOne(w *tr.Writer, tid int, raw json.RawMessage, c *common) error {
 		cfg.TLSConfig = &tls.Config{RootCAs: pool, ServerName: "localhost"}
 	case "caother":
 		cfg.TLSConfig = &tls.Config{RootCAs: pool, ServerName: "other.example"}
+	case "cahost":
+		// the server is reached through a host name of its own ("localhost", as from an SRV record or an explicit
+		// address) that is not the XMPP domain; the certificates of the scripted server name that host or other.example
+		cfg.TLSConfig = &tls.Config{RootCAs: pool}
+		cfg.TransportConfiguration.Address = strings.Replace(addr, "127.0.0.1", "localhost", 1)
+		cfg.TransportConfiguration.Domain = "xmpp.example"
+		cfg.Jid = sc.User + "@xmpp.example/res"
 	case "skip":
 		cfg.TLSConfig = &tls.Config{InsecureSkipVerify: true}
 	}
